@@ -296,6 +296,9 @@ pub struct Mon {
     path_sigs: HashSet<u128>,
     journal: Option<std::fs::File>,
     time_up_flag: bool,
+    /// Values produced by the current case (width, limbs); used by history
+    /// workloads that feed results back into later cases.
+    pub produced: Vec<(usize, Vec<u64>)>,
 }
 
 const DISTINCT_CAP: usize = 16_000_000;
@@ -401,6 +404,7 @@ impl Mon {
             path_sigs: HashSet::new(),
             journal,
             time_up_flag: false,
+            produced: Vec::new(),
         }
     }
 
@@ -761,6 +765,14 @@ impl Mon {
             self.fail("non-canonical", "bits above BITS are zero", &big::hex(limbs));
         }
         ok
+    }
+
+    /// Canonical-form check on a produced value; canonical values are handed
+    /// back to the workload through `produced`.
+    pub fn produce<const B: usize, const L: usize>(&mut self, v: &Uint<B, L>) {
+        if self.canonical(v) && self.produced.len() < 64 {
+            self.produced.push((B, v.as_limbs().to_vec()));
+        }
     }
 
     pub fn finish(mut self) {
